@@ -27,6 +27,41 @@ type pasteHost struct {
 }
 
 func pasteHosts() []pasteHost {
+	hosts := pasteHostsBase()
+	n := doc.N
+	// what a pasted body leaves open is open for what follows the PASTE: macro bodies ending in an
+	// open directive, pasted into a URL block / a method, followed by one directive of every kind
+	// that may follow there, and then by another method
+	followers := []func() *doc.Node{
+		func() *doc.Node { return n("Tags", "@ft") },
+		func() *doc.Node { return n("Path").WithBody("{\n  \"id\": 1\n}") },
+		func() *doc.Node { return n("404", "any") },
+		func() *doc.Node { return n("Description").WithBody("follower text") },
+		func() *doc.Node { return n("Query").WithBody("{\n  \"q\": 1\n}") },
+		func() *doc.Node { return n("Request", "any") },
+		func() *doc.Node { return n("Headers").WithBody("{\n  \"H\": \"v\"\n}") },
+		func() *doc.Node { return n("Body", "any") },
+		func() *doc.Node { return n("PUT").WithKids(n("200", "any")) },
+		func() *doc.Node { return n("PUT", "/ft/other").WithKids(n("200", "any")) },
+		func() *doc.Node { return n("TYPE", "@ftt", "any") },
+	}
+	for fi, f := range followers {
+		f := f
+		hosts = append(hosts, pasteHost{fmt.Sprintf("url-tail%d", fi), [][]*doc.Node{
+			{n("GET").WithKids(n("200", "any"))},
+			{n("GET")},
+			{n("POST").WithKids(n("Request").WithKids(n("Body", "any")))},
+			{n("GET").WithKids(n("200").WithKids(n("Body", "any")))},
+		}, func(p *doc.Node, paren bool) []*doc.Node {
+			u := n("URL", "/ft/{id}").WithKids(p, f(), n("DELETE").WithKids(n("204", "empty")))
+			u.Paren = paren
+			return []*doc.Node{n("TAG", "@ft"), u, n("TYPE", "@after", "empty")}
+		}})
+	}
+	return hosts
+}
+
+func pasteHostsBase() []pasteHost {
 	n := doc.N
 	return []pasteHost{
 		{"top", [][]*doc.Node{
